@@ -27,7 +27,7 @@ pub fn lit_scalar(k: &str, rng: &mut Rng) -> String {
     "i64" => format!("{}<i64>", 1 + rng.below(9)),
     "f32" => format!("{}<f32>", [1.5, 2.0, 0.5, 3.0][rng.below(4) as usize]),
     "bool" => if rng.chance(1, 2) { "true".into() } else { "false".into() },
-    "string" => format!("\"{}\"", rng.pick(&["a", "bc", "hello", "x y", ""])),
+    "string" => format!("\"{}\"", rng.pick(&["a", "bc", "hello", "x y", "", "zé!", "日本", "ñandú x"])),
     "r64" => format!("{}/{}", 1 + rng.below(7), 2 + rng.below(5)),
     "c64" => format!("{}+{}i", 1 + rng.below(5), 1 + rng.below(5)),
     _ => "1".into(),
@@ -40,13 +40,14 @@ pub fn lit_matrix(k: &str, r: usize, c: usize, rng: &mut Rng) -> String {
 
 macro_rules! push { ($s:expr, $($arg:tt)*) => {{ let s__ = format!($($arg)*); $s.push(s__); }} }
 
-pub struct Gen<'a> { pub rng: &'a mut Rng, pub vars: Vec<Var>, pub prog: Prog, counter: usize, pub clean: bool, pub rowonly: bool }
+pub struct Gen<'a> { pub rng: &'a mut Rng, pub vars: Vec<Var>, pub prog: Prog, counter: usize, pub clean: bool, pub rowonly: bool, last_lit: bool }
 
 impl<'a> Gen<'a> {
-  pub fn new(rng: &'a mut Rng) -> Gen<'a> { Gen { rng, vars: vec![], prog: Prog { stmts: vec![], tags: BTreeSet::new(), restricted: true, mutates: false }, counter: 0, clean: false, rowonly: false } }
-  fn fresh(&mut self) -> String { self.counter += 1; format!("v{}", self.counter) }
+  pub fn new(rng: &'a mut Rng) -> Gen<'a> { Gen { rng, vars: vec![], prog: Prog { stmts: vec![], tags: BTreeSet::new(), restricted: true, mutates: false }, counter: 0, clean: false, rowonly: false, last_lit: false } }
+  /// names are v1, v2, ...; one in ten carries a non-ASCII letter (names are stored in bytecode and symbol tables too)
+  fn fresh(&mut self) -> String { self.counter += 1; if self.rng.chance(1, 10) { format!("v{}é", self.counter) } else { format!("v{}", self.counter) } }
   fn tag(&mut self, t: &str) { self.prog.tags.insert(t.to_string()); }
-  fn push(&mut self, s: String) { self.prog.stmts.push(s); }
+  fn push(&mut self, s: String) { self.prog.stmts.push(s); self.last_lit = false; }
   fn vars_of(&self, f: impl Fn(&Var) -> bool) -> Vec<Var> { self.vars.iter().filter(|v| f(v)).cloned().collect() }
 
   /// an operand of scalar kind k: a variable of that kind or a literal
@@ -59,6 +60,7 @@ impl<'a> Gen<'a> {
     let n = self.fresh(); let m = self.rng.chance(1, 3);
     let l = lit_scalar(k, self.rng);
     push!(self, "{}{} := {}", if m { "~" } else { "" }, n, l);
+    self.last_lit = true;
     self.tag(&format!("lit-{}", k)); self.vars.push(Var { name: n, ty: Ty::S(k), mutable: m });
   }
   pub fn define_matrix_literal(&mut self, k: &'static str, r: usize, c: usize) {
@@ -67,6 +69,7 @@ impl<'a> Gen<'a> {
     let n = self.fresh(); let m = self.rng.chance(1, 2);
     let l = lit_matrix(k, r, c, self.rng);
     push!(self, "{}{} := {}", if m { "~" } else { "" }, n, l);
+    self.last_lit = true;
     self.tag(&format!("matlit-{}", k)); self.vars.push(Var { name: n, ty: Ty::M(k, r, c), mutable: m });
   }
   pub fn binop(&mut self, k: &'static str) {
@@ -163,7 +166,8 @@ impl<'a> Gen<'a> {
   /// constructs outside the restricted class (bytecode may refuse them, but must not lie)
   pub fn general(&mut self) {
     let n = self.fresh();
-    let mut pick = self.rng.below(16);
+    let mut pick = self.rng.below(19);
+    if self.rowonly && pick == 17 { pick = 16; }
     if self.rowonly && (pick == 3 || pick == 14) { pick = 0; }
     let fs = self.vars_of(|v| v.ty == Ty::S("f64"));
     let fm = self.vars_of(|v| matches!(v.ty, Ty::M("f64", _, _)));
@@ -184,9 +188,13 @@ impl<'a> Gen<'a> {
       12 => (lit_scalar("r64", self.rng), None, "lit-r64"),
       13 => (lit_scalar("c64", self.rng), None, "lit-c64"),
       14 => (format!("[{} {}] ** [{}; {}]", lit_scalar("f64", self.rng), lit_scalar("f64", self.rng), lit_scalar("f64", self.rng), lit_scalar("f64", self.rng)), None, "matmul"),
+      16 => (format!("{{{}, {}}}", lit_scalar("string", self.rng), lit_scalar("string", self.rng)), Some(Ty::Set), "set-literal-string"),
+      17 => (format!("|a<string> b<f64>| {} {} | {} {} |", lit_scalar("string", self.rng), lit_scalar("f64", self.rng), lit_scalar("string", self.rng), lit_scalar("f64", self.rng)), Some(Ty::Tab), "table-literal-string"),
+      18 => (format!("({}, {{s: {}}})", lit_scalar("string", self.rng), lit_scalar("string", self.rng)), Some(Ty::Tup), "tuple-record-string"),
       _ => (format!("math/abs(-{})", x), Some(Ty::S("f64")), "call-abs"),
     };
     push!(self, "{} := {}", n, src); self.tag(tag); self.prog.restricted = false;
+    self.last_lit = matches!(tag, "set-literal" | "tuple-literal" | "record-literal" | "table-literal" | "lit-r64" | "lit-c64" | "set-literal-string" | "table-literal-string" | "tuple-record-string");
     if let Some(t) = ty { self.vars.push(Var { name: n, ty: t, mutable: false }); }
   }
 
@@ -196,7 +204,7 @@ impl<'a> Gen<'a> {
     let k = if self.clean { *self.rng.pick(&["f64", "f64", "bool", "string"]) } else { *self.rng.pick(&SKINDS) };
     match roll {
       0..=14 => self.define_scalar_literal(k),
-      15..=27 => { let (r, c) = *self.rng.pick(&[(1usize, 3usize), (3, 1), (2, 2), (2, 3), (3, 3), (1, 1)]); let mk = if self.clean { *self.rng.pick(&["f64", "f64", "bool", "string"]) } else { *self.rng.pick(&["f64", "f64", "u8", "i64", "bool", "string"]) }; self.define_matrix_literal(mk, r, c) }
+      15..=27 => { let (r, c) = *self.rng.pick(&[(1usize, 3usize), (3, 1), (2, 2), (2, 3), (3, 3), (1, 1), (4, 1), (1, 4), (4, 2), (5, 1), (2, 5)]); let mk = if self.clean { *self.rng.pick(&["f64", "f64", "bool", "string"]) } else { *self.rng.pick(&["f64", "f64", "u8", "i64", "bool", "string"]) }; self.define_matrix_literal(mk, r, c) }
       28..=45 => self.binop(k),
       46..=53 => self.matrix_binop(),
       54..=58 => self.unop(),
@@ -210,7 +218,14 @@ impl<'a> Gen<'a> {
   pub fn finish(&mut self) {
     // the program's result is the value of its last statement; a trailing bare reference to an *earlier* variable is
     // generated only in the dedicated trailing-reference construct (bytecode has no instruction for it)
-    if self.rng.chance(1, 12) && self.vars.len() >= 2 { let v = self.vars[0].name.clone(); self.push(v); self.tag("trailing-reference"); }
+    if self.rng.chance(1, 12) && self.vars.len() >= 2 { let v = self.vars[0].name.clone(); self.push(v); self.tag("trailing-reference"); return; }
+    // the value of a program is the value of its last statement: half of the programs end in a bare expression (the last
+    // definition without its `name :=`), so that the result is the output of the last operator and not of a definition
+    if self.rng.chance(1, 2) {
+      if let Some(last) = self.prog.stmts.last().cloned() {
+        if let Some(pos) = last.find(" := ") { let (lhs, rhs) = (&last[..pos], &last[pos + 4..]); if lhs.starts_with('v') && !lhs.contains('<') && self.prog.stmts.len() >= 2 { let n = self.prog.stmts.len(); self.prog.stmts[n - 1] = rhs.to_string(); let t = if self.last_lit { "final-literal" } else { "final-expr" }; self.tag(t); } }
+      }
+    }
   }
 }
 
@@ -238,7 +253,7 @@ pub fn construct_sweep(rng: &mut Rng) -> Vec<Prog> {
   }
   for mk in ["f64", "u8", "u64", "i8", "i64", "f32", "bool", "string"] {
     let mk: &'static str = mk;
-    for (r, c) in [(1usize, 3usize), (3, 1), (2, 2), (2, 3)] {
+    for (r, c) in [(1usize, 3usize), (3, 1), (2, 2), (2, 3), (4, 1), (1, 4), (4, 2), (5, 1)] {
       { let mut g = Gen::new(rng); g.define_matrix_literal(mk, r, c); g.finish(); out.push(g.prog); }
       for _ in 0..6 { let mut g = Gen::new(rng); g.define_matrix_literal(mk, r, c); g.index_read(); g.finish(); out.push(g.prog); }
       for _ in 0..5 { let mut g = Gen::new(rng); g.define_matrix_literal(mk, r, c); g.vars[0].mutable = true; let s = g.prog.stmts[0].clone(); if !s.starts_with('~') { g.prog.stmts[0] = format!("~{}", s); } g.assign(); out.push(g.prog); }
